@@ -25,7 +25,7 @@ func init() {
 		Level: "other",
 		Explanation: "(R1) on the paths from Node.Unsubscribe (local call and control message) to Client.Unsubscribe, the channel value is tested for emptiness: a call that forwards the caller's channel is reached only when it is non-empty, and on the empty edge every channel of the connection (Client.Channels) is unsubscribed through the same per-channel call (callbacks, leave, presence removal, unsubscribe push).",
 		NotDecided: "the per-channel effects themselves (C05–C08, C10 cover them).",
-		Rules: map[string]string{"C28.R1": "call-graph + K2: empty channel fans out over Client.Channels()"},
+		Rules: map[string]string{"C28.R1": "call-graph + K2: empty channel fans out over Client.Channels()", "C28.R2": "K2: no guard on the channel argument between Node.Unsubscribe and the all-channels expansion"},
 		Run: runC28,
 	})
 }
@@ -361,4 +361,139 @@ func runC28(c *Ctx) {
 	}
 	c.CheckAt("C28.R1", "node-level unsubscribe paths reach Client.Unsubscribe", "hub.go", nForward >= 1, fmt.Sprintf("%d forwarding call(s)", nForward))
 	c.CheckAt("C28.R1", "node-level unsubscribe has an all-channels branch over Client.Channels()", "hub.go", nAll >= 1, "Node.Unsubscribe(user, \"\") must unsubscribe every matching connection from all of its channels")
+
+	// R2: on the way down to the wildcard expansion nothing may filter connections by the channel
+	// argument: "" is not a channel name, so any test of the form subscribed(c, ch) / lookup by ch
+	// silently skips every connection for the all-channels request.
+	more := []string{"(*Node).Unsubscribe", "(*Hub).unsubscribe", "(*Hub).unsubscribeAcrossUsers", "(*Node).handleControl"}
+	for _, n := range more {
+		if f := w.Func("centrifuge", n); f != nil {
+			visit(f, 2)
+		}
+	}
+	expands := func(f *ssa.Function) bool {
+		// the function that owns the all-channels branch, and Client.Unsubscribe itself, may test ch
+		if f == clientUnsub {
+			return true
+		}
+		for _, ci := range CallsIn(f, false, w.calleeFn(clientUnsub)) {
+			d := D(ci.Common().Args[1])
+			if strings.Contains(d, "Client.Channels(") || strings.Contains(d, "ChannelsWithContext(") {
+				return true
+			}
+		}
+		return false
+	}
+	leads := w.wrapMay(w.calleeFn(clientUnsub), 3)
+	nSites := 0
+	for f := range reach {
+		if expands(f) {
+			continue
+		}
+		EachInstr(f, func(in ssa.Instruction) {
+			var chVals []ssa.Value
+			switch x := in.(type) {
+			case *ssa.Go:
+				if !leads(in) && !closureLeads(w, x.Call.Value, leads) {
+					return
+				}
+				chVals = stringOperands(&x.Call)
+			case *ssa.Call:
+				if !leads(in) {
+					return
+				}
+				chVals = stringOperands(&x.Call)
+			default:
+				return
+			}
+			nSites++
+			for _, g := range Guards(in) {
+				if nonEmpty(g) || isEmpty(g) {
+					continue
+				}
+				gd := D(g.Cond)
+				for _, cv := range chVals {
+					d := strings.TrimLeft(D(cv), "&*")
+					if !strings.HasPrefix(d, "arg:") && !strings.HasPrefix(d, "fv:") && !strings.HasPrefix(d, "var:") {
+						continue
+					}
+					name := d[strings.Index(d, ":")+1:]
+					if !isChannelName(name) {
+						continue
+					}
+					if mentionsIdent(gd, "arg:"+name) || mentionsIdent(gd, "fv:"+name) || mentionsIdent(gd, "var:"+name) {
+						c.Check("C28.R2", in, "the way to the all-channels expansion does not filter by the channel argument", false,
+							"guard "+g.String()+" tests the channel name before the empty-means-all expansion: for an empty channel it is false for every connection, nothing is unsubscribed and no error is returned")
+						return
+					}
+				}
+			}
+			c.Check("C28.R2", in, "the way to the all-channels expansion does not filter by the channel argument", true, "")
+		})
+	}
+	c.CheckAt("C28.R2", "node-level unsubscribe fan-out sites found", "hub.go", nSites >= 3, fmt.Sprintf("%d", nSites))
+}
+
+func isChannelName(n string) bool {
+	return n == "ch" || n == "channel" || n == "chName"
+}
+
+// mentionsIdent: s contains ident not followed by an identifier character.
+func mentionsIdent(s, ident string) bool {
+	for i := 0; ; {
+		j := strings.Index(s[i:], ident)
+		if j < 0 {
+			return false
+		}
+		end := i + j + len(ident)
+		if end >= len(s) || !(s[end] == '_' || (s[end] >= 'a' && s[end] <= 'z') || (s[end] >= 'A' && s[end] <= 'Z') || (s[end] >= '0' && s[end] <= '9')) {
+			return true
+		}
+		i = end
+	}
+}
+
+// stringOperands lists the string-typed arguments and (for closures) captured variables of a call.
+func stringOperands(cc *ssa.CallCommon) []ssa.Value {
+	var out []ssa.Value
+	isStr := func(v ssa.Value) bool {
+		b, ok := v.Type().Underlying().(*types.Basic)
+		return ok && b.Kind() == types.String
+	}
+	for _, a := range cc.Args {
+		if isStr(a) {
+			out = append(out, a)
+		}
+	}
+	if mc, ok := cc.Value.(*ssa.MakeClosure); ok {
+		for _, b := range mc.Bindings {
+			if isStr(b) {
+				out = append(out, b)
+			} else if p, ok := b.Type().Underlying().(*types.Pointer); ok {
+				if bb, ok := p.Elem().Underlying().(*types.Basic); ok && bb.Kind() == types.String {
+					out = append(out, b)
+				}
+			}
+		}
+	}
+	return out
+}
+
+// closureLeads: v is a closure whose body contains an instruction matching leads.
+func closureLeads(w *World, v ssa.Value, leads func(ssa.Instruction) bool) bool {
+	mc, ok := v.(*ssa.MakeClosure)
+	if !ok {
+		return false
+	}
+	fn, ok := mc.Fn.(*ssa.Function)
+	if !ok {
+		return false
+	}
+	found := false
+	EachInstr(fn, func(in ssa.Instruction) {
+		if leads(in) {
+			found = true
+		}
+	})
+	return found
 }
